@@ -346,6 +346,7 @@ class Pairing:
         for b in self.sites_by_binding:
             self._classify_binding(b)
         self._boundary_cache: dict[str, list[str]] = {}
+        self._boundary_guards: dict[str, list[str]] = {}
 
     # ---------------------------------------------------------------- basics
     def initial(self, binding: str):
@@ -640,7 +641,49 @@ class Pairing:
     def _contains(root, node) -> bool:
         return any(n is node for n in ast.walk(root))
 
+    def reset_guards(self, mod, f, stmts, binding) -> list[str]:
+        """conditions (normalised source of if-tests) under which the direct RESET sites in stmts run."""
+        nodes = {}
+        for st in stmts:
+            for n in walk_local(st):
+                nodes[id(n)] = n
+        out = []
+        for s in self.sites_by_binding.get(binding, []):
+            if s.func is f and self.polarity[id(s)] == "RESET" and id(s.node) in nodes:
+                cur = s.node
+                # guards by early exit: `if c: continue/return/break` before the reset in an enclosing block
+                chain = [mod.parents.enclosing_stmt(s.node)] + [a for a in mod.parents.ancestors(mod.parents.enclosing_stmt(s.node)) if isinstance(a, ast.stmt)]
+                for st in chain:
+                    if st is f.node:
+                        break
+                    par = mod.parents.of(st)
+                    fld = mod.parents.field_of(st)
+                    block = getattr(par, fld, None) if fld else None
+                    if isinstance(block, list) and st in block:
+                        for prev in block[: block.index(st)]:
+                            if isinstance(prev, ast.If) and prev.body and isinstance(prev.body[-1], (ast.Continue, ast.Return, ast.Break, ast.Raise)):
+                                out.append("unless " + src(prev.test))
+                for anc in mod.parents.ancestors(s.node):
+                    if anc is f.node:
+                        break
+                    if isinstance(anc, ast.If):
+                        out.append(src(anc.test))
+                    elif isinstance(anc, (ast.While,)):
+                        out.append("while " + src(anc.test))
+                    elif isinstance(anc, ast.Try) and any(cur is h or self._contains(h, cur) for h in anc.handlers):
+                        out.append("except-handler")
+                    cur = anc
+                # an early return before the reset makes it conditional as well
+                for n in walk_local(f.node, include_self=False):
+                    if isinstance(n, ast.Return) and n.lineno < s.node.lineno:
+                        out.append("early return")
+        return out
+
     # ---------------------------------------------------------------- boundary
+    def boundary_guards(self, binding) -> list[str]:
+        self.boundary_resets(binding)
+        return self._boundary_guards.get(binding, [])
+
     def boundary_resets(self, binding) -> list[str]:
         """where the compile boundary resets/restores the binding (list of site descriptions)."""
         if binding in self._boundary_cache:
@@ -670,6 +713,9 @@ class Pairing:
                                 ex = m2.functions.get(f"{q2}.{exn}")
                                 if ex is not None and self._stmts_have_reset(m2, ex, ex.node.body, binding):
                                     out.append(f"{m2.rel}::{q2}.{exn}")
+                                    self.__dict__.setdefault("_boundary_guards", {}).setdefault(binding, []).extend(
+                                        self.reset_guards(m2, ex, ex.node.body, binding)
+                                    )
         self._boundary_cache[binding] = out
         return out
 
